@@ -1,7 +1,7 @@
 (* Suites C05 and C16 share one trace format (the harness suite "DIRTY" is run once per property
    under both names): 
      inp:  hostmod nregions [start,size,ps,tracked]*  step*        step = one TL, see dec_step
-     obs:  per step:  [ok,count]  then per region  [page bits...] [o1,n1,o2,n2,...]              *)
+     obs:  per step:  [ok,count,late]  then per region  [page bits...] [o1,n1,o2,n2,...]              *)
 From VM Require Import Prelude.MachInt Prelude.Tok Impl.Dirty Spec.C05.
 
 Definition dec_dop (l : list N) : option (dop * list N) :=
@@ -72,7 +72,7 @@ Fixpoint dec_regions (n : nat) (l : list tok) : option (list region * list tok) 
                if (ps =? 0) || (1000000 <? sz) then None else
                match dec_regions k r with
                | Some (rs, rest) =>
-                   Some ({| r_start := st; r_size := sz; r_ps := ps; r_tracked := (tr =? 1) || (tr =? 2) || (tr =? 3);
+                   Some ({| r_start := st; r_size := sz; r_ps := ps; r_tracked := (tr =? 1) || (tr =? 2) || (tr =? 3) || (tr =? 5);
                             r_dirty := repeat false (N.to_nat (npages sz ps)) |} :: rs, rest)
                | None => None end
            | _ => None end
@@ -90,8 +90,33 @@ Definition geom_of (r : region) : rgeom :=
 Definition runs_of (nreg : nat) (es : list eff) : list (list (N * N)) :=
   map (fun i => flat_map (fun e => if (Nat.eqb (e_r e) i) && (0 <? e_wn e) then [(e_woff e, e_wn e)] else []) es)
       (seq 0 nreg).
+(* pages on which a byte is stored after the last mark_dirty call covering the page, in a trace of
+   micro-events - what the harness's probing bitmap (flavour 5) counts: at every mark_dirty call it
+   notes which bytes of the covered pages have already changed; at the end of the step a page is
+   "late" when it holds a changed byte not so noted *)
+Definition marks_page (ri : nat) (ps p : N) (ev : mev) : bool :=
+  match ev with
+  | MMark e => Nat.eqb (e_r e) ri && negb (e_mlen e =? 0) && page_in ps (e_moff e) (e_mlen e) p
+  | _ => false end.
+Definition writes_page (ri : nat) (ps p : N) (e : eff) : bool :=
+  Nat.eqb (e_r e) ri && (0 <? e_wn e) && (e_woff e / ps <=? p) && (p <=? (e_woff e + e_wn e - 1) / ps).
+Fixpoint late_page (ri : nat) (ps p : N) (tr : list mev) : bool :=
+  match tr with
+  | [] => false
+  | MWrite e :: post => (writes_page ri ps p e && negb (existsb (marks_page ri ps p) post)) || late_page ri ps p post
+  | _ :: post => late_page ri ps p post
+  end.
+Fixpoint late_count (i : nat) (rs : list region) (tr : list mev) : N :=
+  match rs with
+  | [] => 0
+  | r :: t => (if r_tracked r
+               then N.of_nat (length (filter (fun p => late_page i (r_ps r) p tr) (map N.of_nat (seq 0 (length (r_dirty r))))))
+               else 0) + late_count (S i) t tr
+  end.
+Definition late_of (rs : list region) (es : list eff) : N := late_count 0 rs (flat_map micro es).
+
 Definition obs_of (rs : list region) (out : outcome1) : sobs :=
-  {| s_ok := o_ok out; s_count := o_count out;
+  {| s_ok := o_ok out; s_count := o_count out; s_late := late_of rs (o_effs out);
      s_dirty := map (fun r => (if r_tracked r then r_dirty r else map (fun _ => false) (r_dirty r)) ++ [false; false]) rs;
      s_changed := runs_of (length rs) (o_effs out) |}.
 Fixpoint run_hist (hostmod : N) (rs : list region) (ss : list step) : list sobs :=
@@ -111,7 +136,7 @@ Definition enc_bits (l : list bool) : list N := map (fun b : bool => if b then 1
 Definition dec_bits (l : list N) : list bool := map (fun x => negb (x =? 0)) l.
 
 Definition enc_sobs (o : sobs) : list tok :=
-  TL [if s_ok o then 1 else 0; s_count o] ::
+  TL [if s_ok o then 1 else 0; s_count o; s_late o] ::
   flat_map (fun '(d, c) => [TL (enc_bits d); TL (enc_runs c)]) (combine (s_dirty o) (s_changed o)).
 
 Fixpoint dec_pairs (n : nat) (l : list tok) : option (list (list bool) * list (list (N * N)) * list tok) :=
@@ -130,11 +155,11 @@ Fixpoint dec_obs (fuel nreg : nat) (l : list tok) : option (list sobs) :=
   | S f =>
       match l with
       | [] => Some []
-      | TL [ok; cnt] :: r =>
+      | TL [ok; cnt; late] :: r =>
           match dec_pairs nreg r with
           | Some (ds, cs, rest) =>
               match dec_obs f nreg rest with
-              | Some os => Some ({| s_ok := negb (ok =? 0); s_count := cnt; s_dirty := ds; s_changed := cs |} :: os)
+              | Some os => Some ({| s_ok := negb (ok =? 0); s_count := cnt; s_late := late; s_dirty := ds; s_changed := cs |} :: os)
               | None => None end
           | None => None end
       | _ => None end
